@@ -266,4 +266,56 @@ theorem sendLoop_contiguous : ∀ (fuel : Nat) (sends : List SendRes) (s : State
       simp only [hlt, ↓reduceIte]
       exact ⟨0, by simp⟩
 
+/-- with enough fuel (`sendHead` gives more than the octets still to send) the send loop ends
+`done` only when the whole request has been accepted by the socket -/
+theorem sendLoop_done_complete : ∀ (fuel : Nat) (sends : List SendRes) (s : State) (id : Nat), id < s.reqs.length →
+    (s.getReq id).sent ≤ (s.getReq id).raw.length →
+    (s.getReq id).raw.length - (s.getReq id).sent < fuel →
+    (sendLoop fuel sends s id).2.2 = .done →
+    ((sendLoop fuel sends s id).1.getReq id).sent = (s.getReq id).raw.length
+  | 0, _, _, _, _, _, hf, _ => by omega
+  | fuel + 1, sends, s, id, hid, hle, hf, hd => by
+    unfold sendLoop at hd ⊢
+    simp only at hd ⊢
+    split at hd
+    · rename_i hlt
+      simp only [hlt, ↓reduceIte] at hd ⊢
+      have step : ∀ (k : Nat) (rest : List SendRes),
+          (sendLoop fuel rest ((logSent s (((s.getReq id).raw.drop (s.getReq id).sent).take
+              (min (max k 1) ((s.getReq id).raw.length - (s.getReq id).sent)))).setReq id
+            fun q => { q with sent := q.sent + min (max k 1) ((s.getReq id).raw.length - (s.getReq id).sent) }) id).2.2 = .done →
+          ((sendLoop fuel rest ((logSent s (((s.getReq id).raw.drop (s.getReq id).sent).take
+              (min (max k 1) ((s.getReq id).raw.length - (s.getReq id).sent)))).setReq id
+            fun q => { q with sent := q.sent + min (max k 1) ((s.getReq id).raw.length - (s.getReq id).sent) }) id).1.getReq id).sent
+            = (s.getReq id).raw.length := by
+        intro k rest hdone
+        have hid2 : id < (logSent s (((s.getReq id).raw.drop (s.getReq id).sent).take
+            (min (max k 1) ((s.getReq id).raw.length - (s.getReq id).sent)))).reqs.length := by
+          rw [logSent_reqs]; exact hid
+        have hid1 : id < ((logSent s (((s.getReq id).raw.drop (s.getReq id).sent).take
+            (min (max k 1) ((s.getReq id).raw.length - (s.getReq id).sent)))).setReq id
+            fun q => { q with sent := q.sent + min (max k 1) ((s.getReq id).raw.length - (s.getReq id).sent) }).reqs.length := by
+          rw [setReq_reqs_length]; exact hid2
+        have hg := getReq_setReq (logSent s (((s.getReq id).raw.drop (s.getReq id).sent).take
+            (min (max k 1) ((s.getReq id).raw.length - (s.getReq id).sent)))) id
+            (fun q => { q with sent := q.sent + min (max k 1) ((s.getReq id).raw.length - (s.getReq id).sent) }) hid2
+        rw [logSent_getReq] at hg
+        have := sendLoop_done_complete fuel rest _ id hid1 (by rw [hg]; simp only; omega) (by rw [hg]; simp only; omega) hdone
+        rw [this, hg]
+      cases sends with
+      | nil =>
+        have := step ((s.getReq id).raw.length - (s.getReq id).sent) [] (by
+          have e : min (max ((s.getReq id).raw.length - (s.getReq id).sent) 1) ((s.getReq id).raw.length - (s.getReq id).sent)
+              = min (max ((s.getReq id).raw.length - (s.getReq id).sent) 1) ((s.getReq id).raw.length - (s.getReq id).sent) := rfl
+          exact hd)
+        exact this
+      | cons x rest =>
+        cases x with
+        | wouldBlock => simp at hd
+        | error => simp at hd
+        | accept k => exact step k rest hd
+    · rename_i hlt
+      simp only [hlt, ↓reduceIte]
+      omega
+
 end KsiVerif.Tcp
